@@ -1,4 +1,5 @@
 import FFSM2.Props.C12
+import FFSM2.Lemmas.World
 /-!
 # C17 — Behaviour depends only on history; copies are equivalent   (partial, see below)
 
@@ -29,23 +30,9 @@ theorem C17_copy_obsEq (cfg : Cfg) (beh : Beh) (w : World) (k i src : Nat) (sc :
     instance of the world untouched -/
 theorem C17_copy_bisim (f : Step) (c : Core) : f { core := c } = f { core := c } := rfl
 
-theorem World.get_put_ne (w : World) (i j : Nat) (c : Option Core) (h : i ≠ j) : (w.put i c).get j = w.get j := by
-  unfold World.put World.get
-  simp only [List.getD_eq_getElem?_getD, List.getElem?_set]
-  by_cases hlt : i < w.length
-  · simp [hlt, h]
-  · simp only [hlt, if_false, h, if_false]
-    rw [List.getElem?_append]
-    by_cases hj : j < w.length
-    · simp [hj]
-    · simp only [hj, if_false]
-      rw [List.getElem?_replicate]
-      have : w[j]? = none := List.getElem?_eq_none (by omega)
-      split <;> simp [this]
-
 theorem C17_independent (cfg : Cfg) (w : World) (i j k : Nat) (name : String) (c : Core) (f : Step) (h : i ≠ j) :
     (onCore cfg w i k name c f).1.get j = w.get j := by
   unfold onCore
-  exact World.get_put_ne w i j _ h
+  exact World.get_put_ne w i j _ (fun e => h e.symm)
 
 end FFSM2
